@@ -260,7 +260,7 @@ def cases(tier, seed):
     nmax = 4 if tier == "thorough" else 3
     for rk in ("gray-png", "gray16-tif", "rgb-png"):
         for n in range(1, nmax + 1):
-            refs = ["none", "plain", "meta"]
+            refs = ["none", "plain", "meta", "roi"]
             for ref in refs:
                 for sp in ("iso", "aniso", "odd"):
                     if sp == "odd" and ref == "none":
@@ -335,7 +335,12 @@ def _meta_value(field, kind, labels):
         return np.float64(SCALAR[field]) + 0.5
     n = len(labels)
     if kind == "dict":
-        return {l: v for l, v in zip(labels, PERCH[field])}
+        pairs = list(zip(labels, PERCH[field]))
+        if field in ("illum_wavelen", "noise_sd"):
+            # same mapping, but written in another order than the image's
+            # channel axis
+            pairs = pairs[::-1]
+        return {l: v for l, v in pairs}
     if kind == "array":
         if field == "illum_polarization":
             return xr.DataArray(
@@ -1021,6 +1026,11 @@ def _run_average(case, ck, d):
                          else "scalar") for f in FIELDS}
         ref = _mkimage(rshape, rl, "float64", spacing, "reference", kinds)
         rows, cols = list(range(3)), list(range(4))
+        if refk == "roi":
+            # a reference image that is a region of interest away from the
+            # origin of the files: pixels (1..3, 1..4)
+            ref = ref.assign_coords(x=ref.x + sx, y=ref.y + sy)
+            rows, cols = [1, 2, 3], [1, 2, 3, 4]
         if color:
             chan_idx, labels = [1, 2], ["green", "blue"]
     else:
